@@ -6,7 +6,7 @@ Mirrors `rtctools/_internal/alias_tools.py` (`AliasDict`) and the alias handling
 `SimulationProblem.get_var / set_var` (simulation_problem.py: index map with signs, nominal
 dictionary).
 
-* `Rel`      — pymoca's `AliasRelation.canonical_signed`, abstractly: `Name → Name × Sign`.
+* `Rel`      — pymoca's `AliasRelation.canonical_signed`, abstractly: `VName → VName × Sign`.
 * `NegVal`   — a value type with Python's unary minus as `AliasDict` applies it (`neg`) and the
                acceptance test of `__setitem__` (`ok`: tuples must have length 2).
 * `PyDict`   — an insertion-ordered Python `dict` keyed by (canonical) names.
@@ -20,7 +20,7 @@ Core Lean only.
 -/
 namespace RtcVerif.C13
 
-abbrev Name := String
+abbrev VName := String
 
 inductive Sign where
   | pos
@@ -39,7 +39,7 @@ def toInt : Sign → Int
 end Sign
 
 /-- `AliasRelation.canonical_signed` -/
-abbrev Rel := Name → Name × Sign
+abbrev Rel := VName → VName × Sign
 
 /-- the canonical name of the canonical name is itself, with sign `+` -/
 def Rel.Idem (r : Rel) : Prop := ∀ n, r (r n).1 = ((r n).1, Sign.pos)
@@ -59,27 +59,27 @@ def signed {V : Type} [NegVal V] : Sign → V → V
 
 /-! ## Python dict (insertion ordered) -/
 
-abbrev PyDict (V : Type) := List (Name × V)
+abbrev PyDict (V : Type) := List (VName × V)
 
 namespace PyDict
 variable {V : Type}
 
-def get : PyDict V → Name → Option V
+def get : PyDict V → VName → Option V
   | [], _ => none
   | (k', v) :: rest, k => if k' = k then some v else get rest k
 
 /-- `d[k] = v`: an existing key keeps its position, a new key is appended -/
-def set : PyDict V → Name → V → PyDict V
+def set : PyDict V → VName → V → PyDict V
   | [], k, v => [(k, v)]
   | (k', v') :: rest, k, v => if k' = k then (k', v) :: rest else (k', v') :: set rest k v
 
-def del : PyDict V → Name → PyDict V
+def del : PyDict V → VName → PyDict V
   | [], _ => []
   | (k', v') :: rest, k => if k' = k then rest else (k', v') :: del rest k
 
-def has (d : PyDict V) (k : Name) : Bool := (get d k).isSome
+def has (d : PyDict V) (k : VName) : Bool := (get d k).isSome
 
-def keys (d : PyDict V) : List Name := d.map Prod.fst
+def keys (d : PyDict V) : List VName := d.map Prod.fst
 def values (d : PyDict V) : List V := d.map Prod.snd
 
 end PyDict
@@ -99,7 +99,7 @@ deriving DecidableEq, Repr
 variable {V : Type} [NegVal V]
 
 /-- `AliasDict.__canonical_signed` -/
-def csigned (r : Rel) (sv : Bool) (k : Name) : Name × Sign :=
+def csigned (r : Rel) (sv : Bool) (k : VName) : VName × Sign :=
   if sv then r k else ((r k).1, Sign.pos)
 
 namespace ADict
@@ -107,33 +107,33 @@ namespace ADict
 def empty (sv : Bool) : ADict V := ⟨sv, []⟩
 
 /-- `__setitem__` -/
-def set (r : Rel) (a : ADict V) (k : Name) (v : V) : Except Err (ADict V) :=
+def set (r : Rel) (a : ADict V) (k : VName) (v : V) : Except Err (ADict V) :=
   let cs := csigned r a.signedValues k
   if ok v then .ok { a with d := a.d.set cs.1 (signed cs.2 v) } else .error .assertion
 
 /-- `__getitem__` -/
-def get (r : Rel) (a : ADict V) (k : Name) : Except Err V :=
+def get (r : Rel) (a : ADict V) (k : VName) : Except Err V :=
   let cs := csigned r a.signedValues k
   match a.d.get cs.1 with
   | some v => .ok (signed cs.2 v)
   | none => .error .keyError
 
 /-- `__delitem__` -/
-def del (r : Rel) (a : ADict V) (k : Name) : Except Err (ADict V) :=
+def del (r : Rel) (a : ADict V) (k : VName) : Except Err (ADict V) :=
   let cs := csigned r a.signedValues k
   if a.d.has cs.1 then .ok { a with d := a.d.del cs.1 } else .error .keyError
 
 /-- `__contains__` -/
-def contains (r : Rel) (a : ADict V) (k : Name) : Bool :=
+def contains (r : Rel) (a : ADict V) (k : VName) : Bool :=
   a.d.has (csigned r a.signedValues k).1
 
 def len (a : ADict V) : Nat := a.d.length
-def keys (a : ADict V) : List Name := a.d.keys
+def keys (a : ADict V) : List VName := a.d.keys
 def values (a : ADict V) : List V := a.d.values
-def items (a : ADict V) : List (Name × V) := a.d
+def items (a : ADict V) : List (VName × V) := a.d
 
 /-- `update(other)`: item by item; an `AssertionError` leaves the items already stored -/
-def update (r : Rel) : ADict V → List (Name × V) → ADict V × Option Err
+def update (r : Rel) : ADict V → List (VName × V) → ADict V × Option Err
   | a, [] => (a, none)
   | a, (k, v) :: rest =>
     match set r a k v with
@@ -141,7 +141,7 @@ def update (r : Rel) : ADict V → List (Name × V) → ADict V × Option Err
     | .error e => (a, some e)
 
 /-- `get(key, default)` -/
-def getD (r : Rel) (a : ADict V) (k : Name) (dflt : V) : V :=
+def getD (r : Rel) (a : ADict V) (k : VName) (dflt : V) : V :=
   if contains r a k then
     match get r a k with
     | .ok v => v
@@ -149,7 +149,7 @@ def getD (r : Rel) (a : ADict V) (k : Name) (dflt : V) : V :=
   else dflt
 
 /-- `setdefault(key, default)` -/
-def setdefault (r : Rel) (a : ADict V) (k : Name) (dflt : V) : Except Err (ADict V × V) :=
+def setdefault (r : Rel) (a : ADict V) (k : VName) (dflt : V) : Except Err (ADict V × V) :=
   if contains r a k then
     match get r a k with
     | .ok v => .ok (a, v)
@@ -167,17 +167,17 @@ end ADict
 /-! ## Operation machine -/
 
 inductive Op (V : Type) where
-  | set (k : Name) (v : V)
-  | get (k : Name)
-  | del (k : Name)
-  | contains (k : Name)
+  | set (k : VName) (v : V)
+  | get (k : VName)
+  | del (k : VName)
+  | contains (k : VName)
   | len
   | keys
   | values
   | items
-  | update (kvs : List (Name × V))
-  | setdefault (k : Name) (v : V)
-  | getD (k : Name) (v : V)
+  | update (kvs : List (VName × V))
+  | setdefault (k : VName) (v : V)
+  | getD (k : VName) (v : V)
   | copy
   | swap
 deriving Repr
@@ -188,9 +188,9 @@ inductive Out (V : Type) where
   | err (e : Err)
   | bool (b : Bool)
   | nat (n : Nat)
-  | names (l : List Name)
+  | names (l : List VName)
   | vals (l : List V)
-  | items (l : List (Name × V))
+  | items (l : List (VName × V))
 deriving Repr
 
 /-- the dictionary operated on and the last copy taken of it -/
@@ -280,23 +280,23 @@ instance : NegVal Rat := ⟨fun q => -q, fun _ => true⟩
 structure Sim where
   vec : List Rat
   nStates : Nat
-  slot : Name → Option Nat
+  slot : VName → Option Nat
   nominals : ADict Rat
 
 /-- `__indices[name]`: position of the symbol the name is an alias of, with the relative sign -/
-def Sim.index (r : Rel) (s : Sim) (name : Name) : Option (Nat × Sign) :=
+def Sim.index (r : Rel) (s : Sim) (name : VName) : Option (Nat × Sign) :=
   match s.slot (r name).1 with
   | some i => some (i, (r name).2)
   | none => none
 
 /-- `get_variable_nominal(name)` = `__nominals.get(name, 1.0)` -/
-def Sim.nominal (r : Rel) (s : Sim) (name : Name) : Rat := s.nominals.getD r name 1
+def Sim.nominal (r : Rel) (s : Sim) (name : VName) : Rat := s.nominals.getD r name 1
 
 def sgnMul : Sign → Rat → Rat
   | .pos, q => q
   | .neg, q => q * (-1)
 
-def Sim.getVar (r : Rel) (s : Sim) (name : Name) : Option Rat :=
+def Sim.getVar (r : Rel) (s : Sim) (name : VName) : Option Rat :=
   match s.index r name with
   | none => none
   | some (i, sg) =>
@@ -306,7 +306,7 @@ def Sim.getVar (r : Rel) (s : Sim) (name : Name) : Option Rat :=
       let value := sgnMul sg x
       some (if i ≤ s.nStates then value * s.nominal r name else value)
 
-def Sim.setVar (r : Rel) (s : Sim) (name : Name) (value : Rat) : Option Sim :=
+def Sim.setVar (r : Rel) (s : Sim) (name : VName) (value : Rat) : Option Sim :=
   match s.index r name with
   | none => none
   | some (i, sg) =>
